@@ -131,7 +131,7 @@ fn print_stacktrace(trace: &StackTrace) {
         };
 
         let desc = match &frame.desc {
-            Some(desc) => desc.clone(),
+            Some(desc) => Cell::clone(desc),
             _ => Cell::Nil,
         };
 
